@@ -165,7 +165,49 @@ def h_verify(ctx, compressed, chain, akind='p2pkh'):
     ctx.select_chain('mainnet')
 
 
-HARNESSES = {'digest_fixed': h_digest_fixed, 'digest': h_digest, 'sign': h_sign, 'verify': h_verify}
+def h_verify_seq(ctx, order, chain):
+    """history: several verifications in one process, compressed and uncompressed keys in the given order; each one is decided
+    by ITS recovered key alone (the recovery is called with that signature's compression flag)"""
+    SM = ctx.mod('bitcoin.signmessage')
+    W_ = ctx.mod('bitcoin.wallet')
+    ctx.select_chain(chain)
+    for k, compressed in enumerate(order):
+        pre = 'v%d_' % k
+        what = 'verification %d (%s key) after %s' % (k + 1, 'compressed' if compressed else 'uncompressed',
+                                                        [('compressed' if c else 'uncompressed') for c in order[:k]] or 'nothing')
+        msg = ctx.text(pre + 'm', 2, 32, 126)
+        m = SM.BitcoinMessage(msg)
+        if not ctx.symbolic:
+            key = W_.CBitcoinSecret.from_secret_bytes(ctx.sha256(ctx.bytes(pre + 'pub', 33 if compressed else 65)), compressed)
+            sig = SM.SignMessage(key, m)
+            addr = W_.P2PKHBitcoinAddress.from_pubkey(key.pub)
+            ctx.check(SM.VerifyMessage(addr, m, sig), 'verify true iff recovered key hashes to the address', detail=what)
+            continue
+        rs = ctx.bytes(pre + 'rs', 64)
+        recid = ctx.int(pre + 'recid', 0, 3)
+        pub = ctx.bytes(pre + 'pub', 33 if compressed else 65)
+        hdr = 27 + recid + (4 if compressed else 0)
+        sig = ctx.b64encode(ctx.bytes_of([hdr]) + rs)
+        seen = {}
+
+        def recover(key, sigR, sigS, mh, mlen, rid, check, seen=seen, pub=pub):
+            seen.update(r=sigR, s=sigS, h=mh, recid=rid, compressed=key._compressed)
+            key._pub = pub
+            return 1
+        ctx.set_state('recover', recover)
+        ctx.set_state('derive_pub', lambda secret, comp, pub=pub: pub)
+        payload = ctx.bytes(pre + 'addr_payload', 20)
+        with P12._Patched(ctx):
+            addr = W_.P2PKHBitcoinAddress.from_bytes(payload)
+            got = SM.VerifyMessage(addr, m, sig)
+        ctx.check(ctx.and_(seen.get('r') == rs[:32], seen.get('s') == rs[32:], seen.get('h') == m.GetHash(), seen.get('recid') == recid,
+                           seen.get('compressed') == compressed),
+                  'recovery is called with r, s, the message digest, the recovery id and the compression flag', detail=what)
+        ctx.check(ctx.iff(got, ctx.hash160(pub) == payload), 'verify true iff recovered key hashes to the address', detail=what)
+    ctx.select_chain('mainnet')
+
+
+HARNESSES = {'verify_seq': h_verify_seq, 'digest_fixed': h_digest_fixed, 'digest': h_digest, 'sign': h_sign, 'verify': h_verify}
 
 
 def instances(tier):
@@ -183,4 +225,6 @@ def instances(tier):
             out.append(dict(h='verify', p=dict(compressed=comp, chain=chain)))
         for ak in ('p2sh', 'p2wpkh'):
             out.append(dict(h='verify', p=dict(compressed=comp, chain='mainnet', akind=ak)))
+    for order in ([True, False], [False, True], [True, True, False], [False, False, True]):
+        out.append(dict(h='verify_seq', p=dict(order=order, chain='mainnet' if order[0] else 'testnet')))
     return out
